@@ -431,6 +431,38 @@ pub fn run(ctx: &Ctx) -> i32 {
                 }
             }
         }
+        // time zones other than UTC (child processes): the three formats print the same text for a timestamp
+        {
+            let tdef = "CREATE TABLE z('ts=<([^>]*)>' => ts TIMESTAMP, 'k=(\\\\w+)' => k TEXT);";
+            let tdata: &[u8] = b"k=a ts=<2021-03-04 10:20:30>\nk=a ts=<2021-07-01 00:00:00>\nk=b ts=<1999-12-31 23:59:59>\n";
+            for tz in ["Europe/Stockholm", "America/Sao_Paulo", "Asia/Kolkata", "XXX-1"] {
+                for q in ["SELECT ts FROM z", "SELECT k, MIN(ts), ARRAY_AGG(ts) FROM z GROUP BY k"] {
+                    let mut texts: Vec<(String, Vec<String>)> = Vec::new();
+                    for fname in ["text", "json", "csv"] {
+                        if let crate::sut::ChildOut::Done(j) = sut::run_stmt_child_env(tdef, q, fname, &[Some(tdata)], 20, &[("TZ", tz)]) {
+                            let printed: Vec<String> = j["run"]["printed"].as_array().map(|a| a.iter().filter_map(|x| x.as_str().map(|s| s.to_string())).collect()).unwrap_or_default();
+                            // every timestamp-looking text of the output, in order
+                            let re = regex::Regex::new(r"\d{4}-\d{2}-\d{2} \d{2}:\d{2}:\d{2}\.\d{3}").unwrap();
+                            let found: Vec<String> = printed.iter().flat_map(|l| re.find_iter(l).map(|m| m.as_str().to_string()).collect::<Vec<_>>()).collect();
+                            texts.push((fname.to_string(), found));
+                        }
+                    }
+                    ne += 1;
+                    col.eval(3);
+                    col.nontrivial(h64(&("e2e-tz", tz, q)));
+                    if texts.len() == 3 && !(texts[0].1 == texts[1].1 && texts[1].1 == texts[2].1 && !texts[0].1.is_empty()) {
+                        col.fail(fail(
+                            "print:end-to-end:time-zone:formats-disagree".into(),
+                            format!("`{}` under TZ={}: the timestamps printed are {:?}", q, tz, texts),
+                            json!({"layer": "e2e", "query": q, "format": "all", "tz": tz}),
+                            json!("the same timestamp texts in text, json and csv"),
+                            json!(texts),
+                            ne,
+                        ));
+                    }
+                }
+            }
+        }
         // a table on which blank lines are rows: one record per input line
         {
             let edef = "CREATE TABLE e('^(.*)$' => x TEXT);";
